@@ -995,8 +995,11 @@ Unwind(c) ==
          ELSE LET h == f.node.catches[j] IN
               Ev([Push(c0, [f EXCEPT !.ph = "catch"]) EXCEPT !.env = Bind(@, h.n, ctl.v)], h.b))
     ELSE IF f.k = "try" /\ f.ph \in {"body", "catch"} /\ f.node.has_fin THEN
-        \* finally runs on every exit path, then the abrupt completion continues
-        Ev(Push(c0, [f EXCEPT !.ph = "fin", !.pend = ctl]), f.node.fin)
+        \* finally runs on every exit path, then the abrupt completion continues.
+        \* Deviation F28 (known finding, the code as it is): the finally block is skipped when the try
+        \* or catch block is left by return / break / continue or by an error thrown in the catch block.
+        (IF "F28" \in c.dev THEN [c0 EXCEPT !.used = @ \cup {"F28"}]
+         ELSE Ev(Push(c0, [f EXCEPT !.ph = "fin", !.pend = ctl]), f.node.fin))
     ELSE IF f.k = "loop" /\ ctl.m = "brk" THEN Rt(c0, ctl.v)
     ELSE IF f.k = "loop" /\ ctl.m = "cnt" THEN
         (IF f.node.k = "loop" \/ f.node.k = "for" THEN LoopNext(c0, f)
@@ -1021,8 +1024,10 @@ Step(c) ==
       [] c.ctl.m \in {"brk", "cnt", "ret", "thr"} -> Unwind(c1)
       [] c.ctl.m = "done" -> c
 
-InitCfg(prog) == [ctl |-> [m |-> "ev", n |-> prog], env |-> EmptyEnv, kont |-> <<>>, store |-> <<>>,
-                  out |-> <<>>, exp |-> [ks |-> <<>>, vs |-> <<>>], n |-> 0]
+(* dev: the set of named deviations (known findings modelled as the code behaves) that are enabled;
+   used: those whose rule was actually taken in this run. *)
+InitCfg(prog, dev) == [ctl |-> [m |-> "ev", n |-> prog], env |-> EmptyEnv, kont |-> <<>>, store |-> <<>>,
+                       out |-> <<>>, exp |-> [ks |-> <<>>, vs |-> <<>>], n |-> 0, dev |-> dev, used |-> {}]
 
 (* Run up to 2^k steps with recursion depth k. *)
 RECURSIVE RunK(_, _)
@@ -1031,7 +1036,7 @@ RunK(c, k) == IF c.ctl.m = "done" THEN c
               ELSE RunK(RunK(c, k - 1), k - 1)
 
 (* Observable outcome of a finished (or out-of-fuel) configuration. *)
-Outcome(c) ==
+Outcome0(c) ==
     IF c.ctl.m # "done" THEN [status |-> "fuel", out |-> c.out]
     ELSE IF c.ctl.st = "unspec" THEN [status |-> "unspec", why |-> c.ctl.why, out |-> c.out, steps |-> c.n]
     ELSE IF c.ctl.st = "ok" THEN
@@ -1041,4 +1046,8 @@ Outcome(c) ==
          vtype |-> TypeName(c, c.ctl.v)]
     ELSE [status |-> "err", out |-> c.out, steps |-> c.n, cls |-> c.ctl.cls, kind |-> c.ctl.kind,
           msg |-> IF c.ctl.v.t = "str" THEN c.ctl.v.v ELSE "", trace |-> c.ctl.trace]
+SetToSeq(S) == LET RECURSIVE F(_) 
+                    F(T) == IF T = {} THEN <<>> ELSE LET x == CHOOSE x \in T : TRUE IN <<x>> \o F(T \ {x})
+                IN F(S)
+Outcome(c) == [used |-> SetToSeq(c.used)] @@ Outcome0(c)
 =============================================================================
